@@ -138,7 +138,7 @@ def obligations(tier: str):
     # generated hierarchies (vf/fixtures/family.py): every N-th member with a small bounded language
     from vf.fixtures import family
 
-    for k in family.interesting(3, 30, every=8 if T else 120):
+    for k in family.interesting(3, 30, every=30 if T else 120):
         for d in (2, 3):
             add(f"grow_family{k}_d{d}", fixture="family", index=k, creator="grow", max_depth=d, timeout=200)
         if T:
